@@ -233,7 +233,9 @@ def run(chk, repo, tier):
                     b = {k.items[0].value: k.items[1] for k in a[2]}
                     if wpt == b.get('wavefront_ptype') and ppt == b.get('plane_ptype'):
                         guard_ok = True
-    chk.ob('C08-b', 'D-guard', 'plane.Plane.multiply', 'TypeError guard', guard_ok or (cells_decided and bool(raises)),
+    gone = not repo.has_func('plane._can_mul_ptype') or not repo.has_func('plane._mul_result_ptype')
+    chk.ob('C08-b', 'D-guard', 'plane.Plane.multiply', 'TypeError guard',
+           (guard_ok or (cells_decided and bool(raises))) if (guard_ok or cells_decided or not gone) else None,
            'raises TypeError when _can_mul_ptype(wavefront.ptype, self.ptype) is false' if guard_ok else
            ('the refusal was evaluated for every documented pair (C08-a)' if cells_decided and raises else
             'no TypeError path guarded by _can_mul_ptype(wavefront.ptype, self.ptype)'), fmul.loc())
@@ -249,7 +251,8 @@ def run(chk, repo, tier):
                 b = {k.items[0].value: k.items[1] for k in a[2]}
                 good = wpt == b.get('wavefront_ptype') and ppt == b.get('plane_ptype')
         res_ok = res_ok and good
-    chk.ob('C08-b', 'D-flow', 'plane.Plane.multiply', 'result ptype', (res_ok or cells_decided) and n_ret > 0,
+    chk.ob('C08-b', 'D-flow', 'plane.Plane.multiply', 'result ptype',
+           ((res_ok or cells_decided) and n_ret > 0) if (res_ok or cells_decided or not gone) else None,
            'the new wavefront gets _mul_result_ptype(wavefront.ptype, self.ptype)' if res_ok else
            ('the type of the new wavefront was evaluated for every documented pair (C08-a)' if cells_decided else
             'the resulting wavefront ptype is not _mul_result_ptype(wavefront.ptype, self.ptype)'), fmul.loc())
